@@ -326,7 +326,10 @@ def install_source_summaries(it):
     def index_range_to(it_, st, inst, args, call):
         x, r = _res(args[0], it_, st), _res(args[1], it_, st)
         if isinstance(r, Agg) and len(r.fields) == 1:
-            return Top(summ.ret_ty(it_, call), Tag(("prefix", x, _res(r.fields[0], it_, st))))
+            n = _res(r.fields[0], it_, st)
+            if isinstance(n, Top) and isinstance(n.tag, Tag) and n.tag[0] == "len-of" and n.tag[1] == x:
+                return x  # `&x[..x.len()]` is x
+            return Top(summ.ret_ty(it_, call), Tag(("prefix", x, n)))
         return NotImplemented
 
     S.insert(0, (lambda inst: bool(re.search(r"^core::slice::index::<impl std::ops::Index<I> for \[T\]>::index$", inst["path"])) and "RangeTo<usize>" in inst["name"] and "RangeToInclusive" not in inst["name"],
@@ -340,7 +343,15 @@ def install_source_summaries(it):
             return Top(summ.ret_ty(it_, call), "observed")
         return NotImplemented
 
-    S.insert(0, (path(r"as std::iter::Iterator>::size_hint$|^std::iter::Iterator::size_hint$|^core::str::<impl str>::(len|is_empty)$|^core::slice::<impl \[T\]>::(len|is_empty)$"), observer))
+    S.insert(0, (path(r"as std::iter::Iterator>::size_hint$|^std::iter::Iterator::size_hint$|^core::str::<impl str>::is_empty$|^core::slice::<impl \[T\]>::is_empty$"), observer))
+
+    def len_of(it_, st, inst, args, call):
+        v = _res(args[0], it_, st) if args else None
+        if isinstance(v, Top) and (isinstance(v.tag, Tag) or v.tag == "input"):
+            return Top(summ.ret_ty(it_, call), Tag(("len-of", v)))
+        return NotImplemented
+
+    S.insert(0, (path(r"^core::str::<impl str>::len$|^core::slice::<impl \[T\]>::len$"), len_of))
 
     # trimming: the result is a sub-slice of the argument (whitespace removed at the ends)
     S.insert(0, (path(r"^core::str::<impl str>::trim(_start|_end)?$"), opaque("trimmed", 1)))
